@@ -325,11 +325,25 @@ func Draw(t *rapid.T, cfg Config) *World {
 				ms[i] = jstr(m.String())
 			}
 			ssjs := "{\"camliVersion\": 1,\n  \"camliType\": \"static-set\",\n  \"members\": [" + strings.Join(ms, ", ") + "]\n}"
+			deps := []int{}
+			if len(members) >= 2 && rapid.IntRange(0, 2).Draw(t, "splitStaticSet") == 0 {
+				// a large directory: the top static-set only lists sub-sets ("mergeSets"), which hold the members
+				cut := rapid.IntRange(1, len(members)-1).Draw(t, "splitAt")
+				var subRefs []string
+				for k, part := range [][]string{ms[:cut], ms[cut:]} {
+					sub := "{\"camliVersion\": 1,\n  \"camliType\": \"static-set\",\n  \"members\": [" + strings.Join(part, ", ") + "]\n}"
+					sbi := w.add(&Blob{Kind: KStaticSet, Contents: sub, CamliType: "static-set", Signer: -1, StaticSet: -1})
+					w.Blobs[sbi].Label = fmt.Sprintf("static-subset%d.%d", d, k)
+					deps = append(deps, sbi)
+					subRefs = append(subRefs, jstr(w.Blobs[sbi].Ref.String()))
+				}
+				ssjs = "{\"camliVersion\": 1,\n  \"camliType\": \"static-set\",\n  \"mergeSets\": [" + strings.Join(subRefs, ", ") + "]\n}"
+			}
 			si := w.add(&Blob{Kind: KStaticSet, Contents: ssjs, CamliType: "static-set", Signer: -1, StaticSet: -1, Members: members})
 			w.Blobs[si].Label = fmt.Sprintf("static-set%d", si)
 			dname := rapid.SampledFrom([]string{"dir", "my dir", "d|r"}).Draw(t, "dname")
 			djs := "{\"camliVersion\": 1,\n  \"camliType\": \"directory\",\n  \"fileName\": " + jstr(dname) + ",\n  \"entries\": " + jstr(w.Blobs[si].Ref.String()) + "\n}"
-			di := w.add(&Blob{Kind: KDir, Contents: djs, CamliType: "directory", Signer: -1, StaticSet: si, FetchDeps: []int{si},
+			di := w.add(&Blob{Kind: KDir, Contents: djs, CamliType: "directory", Signer: -1, StaticSet: si, FetchDeps: uniq(append([]int{si}, deps...)),
 				FileName: dname, Members: members})
 			w.Blobs[di].Label = fmt.Sprintf("dir%d", di)
 			fileIdx = append(fileIdx, di)
